@@ -48,6 +48,21 @@ def stepF (_ : Unit) (w : List String) : Option (Unit × String × List String) 
     let s4 := (cleanFixed s3 1 1).1
     let woken := ((List.range n).filter fun c => match get s4 c with | (_, .val 2) => true | _ => false).length
     some ((), s!"woken={woken} hung={n - woken}", ["wakeup_with_unchanged_size"])
+  | ["nilwake", mode] =>
+    -- values are opaque to the buffer (L1 model: any `Nat`); the nil interface value is the model value 0: a Get whose position
+    -- holds it returns it like any other value, parked or not
+    let rd (s : St) : St × String := match get s 0 with
+      | (s', .val v) => (s', if v == 0 then "nil" else toString v)
+      | (_, .pending) => (s, "hang")
+      | (_, .err e) => (s, "err:" ++ errStr e)
+    let s0 := (newConsumer init).1
+    let (s1, first) := rd (put s0 [0]).1
+    let s2 := (commit s1 0).1
+    let s3 := (put s2 [1, 0, 2]).1
+    let (s4, r1) := rd s3
+    let (s5, r2) := rd s4
+    let (_, r3) := rd s5
+    some ((), s!"woke={first} reads={r1},{r2},{r3}", ["nil_value_" ++ mode])
   | _ => none
 
 def fam : Fam := { init := (), step := stepF }
